@@ -302,7 +302,7 @@ func c13run(w *report.W) {
 			w.P.Nontrivial++
 		}
 		if o.kind != "" {
-			w.Violate(report.Violation{Kind: o.kind, Case: descr + text, Detail: o.detail, Size: size, Replay: text})
+			w.Violate(report.Violation{Kind: o.kind, Case: descr + text, Detail: o.detail, Size: size, Replay: text, GoTest: docGoTest(text, o.kind+": "+o.detail)})
 		}
 	}
 	// (i) token strings
@@ -335,6 +335,31 @@ func c13run(w *report.W) {
 		w.Sample("steps:\n- {command: a")
 		w.Sample("- &x [*x")
 	}
+	// (iv) raw bytes: every byte string of <=2 (quick) / <=3 (thorough) bytes over an alphabet of YAML-significant,
+	// control, non-UTF-8 and multi-byte lead/continuation bytes, alone and embedded at three places of a small document
+	rawBytes := []byte{0x00, 0x01, 0x07, 0x09, 0x0a, 0x0d, 0x1b, 0x20, '!', '"', '#', '%', '&', '\'', '*', ',', '-', '.', '0', ':', '<', '>', '?', '@', '[', '\\', ']', '`', 'a', '{', '|', '}', '~', 0x7f, 0x80, 0x85, 0xa0, 0xc2, 0xc3, 0xe2, 0xef, 0xbb, 0xbf, 0xf0, 0xfe, 0xff}
+	maxRaw := 2
+	if w.Thorough() {
+		maxRaw = 3
+	}
+	var recRaw func(prefix []byte, depth int)
+	recRaw = func(prefix []byte, depth int) {
+		if depth > 0 {
+			sx := string(prefix)
+			record(sx, "[raw bytes] ", depth)
+			record("steps:\n  - command: "+sx+"\n", "[raw bytes in a command] ", depth+3)
+			record(sx+": x\nsteps: []\n", "[raw bytes as a key] ", depth+3)
+			record("steps:\n  - "+sx+"\n  - wait\n", "[raw bytes as a step] ", depth+3)
+		}
+		if depth == maxRaw || len(w.P.HarnessErrors) > 0 {
+			return
+		}
+		for _, b := range rawBytes {
+			recRaw(append(append([]byte{}, prefix...), b), depth+1)
+		}
+	}
+	recRaw(nil, 0)
+	w.P.Bounds["raw_bytes"] = fmt.Sprintf("all byte strings of <=%d bytes over %d bytes, alone and at 3 positions of a document", maxRaw, len(rawBytes))
 	// (ii) generated documents with a type error injected at every node position
 	devBound := 1
 	pairs := false
@@ -431,6 +456,7 @@ func init() {
 		ID:               "C13",
 		CrashIsViolation: true,
 		Rule: "(i) every concatenation of <=5 (quick) / <=6 (thorough) tokens over a 22-token alphabet (steps:, '- ', newline, indent, command: a, wait, group: g, &x, *x, <<:, [ ] { } ':' '\"' a ~ !!binary ? , .inf); " +
+			"(iii) the C07 anchor / alias / merge grammar (<=3/4 deviations, incl. cycles) as a top-level document and inside a command step; (iv) every byte string of <=2/3 bytes over 46 YAML-significant / control / non-UTF-8 bytes, alone and at three positions of a document; " +
 			"(ii) every generated pipeline document (<=1/2 deviations) and two base documents with every node replaced in turn by each of 12 values (null, string, int, bool, timestamp, [], [x], {}, {k: v}, [[x]], float, " +
 			"{steps: [wait]}), rendered as YAML or JSON. Oracle: Parse returns (fatal crashes and hangs are caught by a per-case journal / watchdog), never panics, and yields a hard error or a pipeline (+ warning); if usable: non-nil " +
 			"step list with one non-nil step per entry of the input step sequence (counted by an independent walk of yaml.v3's node graph with merges resolved), recursively inside groups; unknown steps marshal back to the input " +
